@@ -31,7 +31,9 @@ def configs(tier):
 
 
 def spec(tier):
-    return cfgdiff.Spec("C05", configs(tier), "off", "c05", "optimizer disabled", {"quick": 500, "thorough": 1500})
+    s = cfgdiff.Spec("C05", configs(tier), "off", "c05", "optimizer disabled", {"quick": 350, "thorough": 1500})
+    s.quick_grid, s.quick_corpus = 400, 200
+    return s
 
 
 def run(tier, replay=None):
